@@ -115,6 +115,143 @@ def sigma_equal(name, pairs, rewrites, assume):
            {"assume": list(assume), "solver_opts": {"pointwise": pw, "rounds": 1, "unfold": False}})
 
 
+# ---- equality of two terms built from accumulated sums whose summands are equal only up to ring identities inside atoms ----------
+
+
+def _uf_apps(e):
+    out, seen, stack = [], set(), [e]
+    while stack:
+        t = stack.pop()
+        if t.get_id() in seen:
+            continue
+        seen.add(t.get_id())
+        if z3.is_app(t):
+            if t.decl().kind() == z3.Z3_OP_UNINTERPRETED and t.num_args() > 0:
+                out.append(t)
+            stack.extend(t.children())
+    return out
+
+
+GEOMETRY = ("sqrt", "rintz", "cos", "sin", "exp", "log", "atan2", "arccos", "POW")
+
+
+def _outermost_geometry_apps(e):
+    out, seen, stack = [], set(), [e]
+    while stack:
+        t = stack.pop()
+        if t.get_id() in seen:
+            continue
+        seen.add(t.get_id())
+        if z3.is_app(t):
+            nm = t.decl().name() if t.decl().kind() == z3.Z3_OP_UNINTERPRETED else ""
+            if t.num_args() > 0 and (nm in GEOMETRY or nm.startswith(("MINIMG", "MINIMAGE", "remove_pbc_row"))):
+                out.append(t)
+                continue
+            stack.extend(t.children())
+    return out
+
+
+def align(e2, e1, limit=300):
+    """rewrite applications of uninterpreted symbols in e2 to the applications of the same symbol in e1 whose arguments are ring-equal
+    (congruence; innermost first, repeated until nothing changes) -> (e2', [(application of e2, application of e1)])"""
+    from pyvc import ring
+    from pyvc import sigma
+    nz = ring.Normalizer()
+    pool = {}
+    for a in _uf_apps(e1):
+        if sigma.sigma_def_of(a) is None:
+            pool.setdefault(a.decl().name(), []).append(a)
+    ids1 = {a.get_id() for lst in pool.values() for a in lst}
+    pairs = []
+    for _ in range(limit):
+        found = None
+        for a2 in sorted(_uf_apps(e2), key=lambda t: len(t.sexpr())):
+            if a2.get_id() in ids1 or sigma.sigma_def_of(a2) is not None:
+                continue
+            for a1 in pool.get(a2.decl().name(), []):
+                try:
+                    if a1.num_args() == a2.num_args() and all(nz.rf_eq(nz.nf(x), nz.nf(y)) for x, y in zip(a1.children(), a2.children())):
+                        found = (a2, a1)
+                        break
+                except ring.TooLarge:
+                    pass
+            if found:
+                break
+        if not found:
+            break
+        pairs.append(found)
+        e2 = z3.substitute(e2, found)
+    return e2, pairs
+
+
+def sigma_chain(name, s1, s2, depth=0):
+    """obligations for S1 == S2, two Σ-applications over the same range whose summands agree up to ring identities inside the arguments
+    of uninterpreted applications (distances, rounded fractional coordinates ...) and up to linear arithmetic outside them:
+      :atoms-congruent          the applications of the second summand equal those of the first (ring normal form of the arguments),
+      :summands-equal           with these identified and generalised to fresh constants, the summands are equal at an arbitrary index,
+      :accumulated-sums-equal   Σ-extensionality with the summand fact at the Skolem index;
+    nested sums are treated first, the same way"""
+    from pyvc import sigma
+    import contracts.C03 as C03
+    d1, d2 = sigma.sigma_def_of(s1), sigma.sigma_def_of(s2)
+    if d1 is None or d2 is None or not (z3.simplify(s1.arg(0) - s2.arg(0)).eq(z3.IntVal(0)) and z3.simplify(s1.arg(1) - s2.arg(1)).eq(z3.IntVal(0))):
+        yield name + ":accumulated-sums-equal", False
+        return
+    a1 = [s1.arg(i) for i in range(2, s1.num_args())]
+    a2 = [s2.arg(i) for i in range(2, s2.num_args())]
+    x = z3.Int(f"x_any{depth}")
+    b1, b2 = d1.body_at(x, a1), d2.body_at(x, a2)
+    in1, in2 = C03.outer_sigmas(b1), C03.outer_sigmas(b2)
+    gen = []
+    if len(in1) == len(in2):
+        for k, (i1, i2) in enumerate(zip(in1, in2)):
+            if not i1.eq(i2):
+                yield from sigma_chain(f"{name}:inner{k}", i1, i2, depth + 1)
+                b2 = z3.substitute(b2, (i2, i1))
+            gen.append(i1)
+    b2a, pairs = align(b2, b1)
+    if pairs:
+        yield name + ":atoms-congruent", z3.And(*[p2 == p1 for p2, p1 in pairs]), {"ring_only": True}
+    atoms = {}
+    for _, p1 in pairs:
+        atoms[p1.get_id()] = p1
+    # the geometry atoms both summands now share (distances, rounded fractional coordinates, ...) are generalised as well: what is left
+    # is linear arithmetic over them (bin edges, cutoffs, selections)
+    for t in _outermost_geometry_apps(z3.And(b1 == b1, b2a == b2a)):
+        atoms[t.get_id()] = t
+    goal, _ = sv.generalize(b1 == b2a, [sv.SV(t) for t in list(atoms.values()) + gen], "u")
+    yield name + ":summands-equal", goal, {"timeout": 10, "solver_opts": {"rounds": 1, "unfold": False}}
+
+    def pw(w, d1=d1, d2=d2, a1=a1, a2=a2):
+        return d1.body_at(w, a1) == d2.body_at(w, a2)
+    yield name + ":accumulated-sums-equal", s1 == s2, {"solver_opts": {"pointwise": [pw], "rounds": 1, "unfold": False}}
+
+
+def related(name, inr, v1, v2, subst=()):
+    """goals for inr -> v1 == v2 (real scalars): ring normal form if that decides it; otherwise the accumulated sums are paired in order
+    of occurrence and proved equal by `sigma_chain`, the rest is ring normal form after identifying them"""
+    import contracts.C03 as C03
+    g = sv.zb(sv.implies(inr, sv.cmp("==", v1, v2)))
+    if subst:
+        g = z3.substitute(g, *subst)
+    if ring_ok(g):
+        yield name, g, {"ring_only": True}
+        return
+    t1, t2 = sv.zr(sv.norm(v1)), sv.zr(sv.norm(v2))
+    if subst:
+        t2 = z3.substitute(t2, *subst)
+    s1, s2 = C03.outer_sigmas(t1), C03.outer_sigmas(t2)
+    if len(s1) != len(s2) or not s1:
+        yield name, g
+        return
+    sub = []
+    for k, (x1, x2) in enumerate(zip(s1, s2)):
+        if not x1.eq(x2):
+            yield from sigma_chain(f"{name}:sum{k}", x1, x2)
+            sub.append((x2, x1))
+    yield name, z3.substitute(g, *sub) if sub else g, {"ring_only": True}
+
+
 # ---------------------------------------------------------------------------------------------------------------
 # group elements
 
@@ -126,7 +263,31 @@ class Geo:
         self.d, self.pos, self.H, self.p = d, pos, H, p
 
 
-class Translation:
+class Group:
+    """defaults of a group element: what it does to the cell, the mask, the box lengths and the coordinate axes (nothing)"""
+    key = what = ""
+
+    def cell(self, geo, s, a, b):
+        return geo.H(s, a, b)
+
+    def mask(self, arr):
+        return arr
+
+    def vec(self, arr):
+        """a per-particle vector field (N, d) given along with the configuration"""
+        return arr
+
+    def axis(self, d, c):
+        return c
+
+    def begin(self, ctx, unit, inp):
+        return None
+
+    def end(self, ctx, unit, inp, token):
+        pass
+
+
+class Translation(Group):
     """x_i -> x_i + t(s): an arbitrary vector per frame (per_frame) or the same vector in every frame (frames compared with each other)"""
     key = "translation"
     what = "unchanged-under-translation"
@@ -339,7 +500,7 @@ def remove_row_wrapper(ctx, token):
         ctx.interp.summaries[PBC_KEY] = token[1]
 
 
-class LatticeShift:
+class LatticeShift(Group):
     """x_i -> x_i + sum_k KSH(s, i, k) ppp_k H_s[k, :]: every particle, in every frame, moved by its own integer combination of the cell
     vectors of the periodic axes (per_frame False: the same combination in every frame and the cell of frame 0 — a shifted trajectory).
 
@@ -374,6 +535,114 @@ class LatticeShift:
 
 
 LATTICE = LatticeShift()
+
+
+# ---- permutation of the coordinate axes together with the cell and the mask -------------------------------------------------------
+
+SIGMA = {2: [1, 0], 3: [1, 2, 0]}        # new axis c carries old axis SIGMA[d][c] (d = 2: the transposition, d = 3: a cyclic permutation)
+
+
+def _sig(d, c):
+    """SIGMA[d][c] for a concrete or symbolic axis index"""
+    return SIGMA[d][int(c)] if sv.is_conc(c) else A._pick(SIGMA[d], c)
+
+
+def _sig_inv(d, a):
+    inv = [SIGMA[d].index(x) for x in range(d)]
+    return inv[int(a)] if sv.is_conc(a) else A._pick(inv, a)
+
+
+class AxisPermutation(Group):
+    """coordinates, cell vectors (rows AND columns of the cell matrix: H' = P H P^T), mask and box lengths permuted together.
+
+    At every call of remove_pbc in the run on g.x the callee contract is applied through the lemma
+        remove_pbc(r P^T, P H P^T, ppp P^T) = remove_pbc(r, H, ppp) P^T
+    (`C07:lemma:d=<d>:remove_pbc-commutes-with-axis-permutations`, proved on the formula of the C02 contract for a general cell and a
+    symbolic mask; the C02 units that prove the formula for the real body are re-run by this check): the wrapper permutes the
+    arguments back, applies the base unit's contract and permutes the result."""
+    key = "axis-permutation"
+    what = "unchanged-under-axis-permutation"
+
+    def pos(self, geo, s, i, c, per_frame=True):
+        d = geo.d
+        if sv.is_conc(c):
+            return geo.pos(s, i, SIGMA[d][int(c)])
+        return A._pick([geo.pos(s, i, SIGMA[d][k]) for k in range(d)], c)
+
+    def cell(self, geo, s, a, b):
+        d = geo.d
+        if sv.is_conc(a) and sv.is_conc(b):
+            return geo.H(s, SIGMA[d][int(a)], SIGMA[d][int(b)])
+        return A._pick([A._pick([geo.H(s, SIGMA[d][x], SIGMA[d][y]) for y in range(d)], b) for x in range(d)], a)
+
+    def mask(self, arr):
+        d = A.conc_dim(arr.shape[0], "mask length")
+        vals = [arr.get((SIGMA[d][k],)) for k in range(d)]
+        return A.from_nested(vals, "int")
+
+    def vec(self, arr):
+        d = A.conc_dim(arr.shape[1], "vector dimension")
+        rd = arr.reader()
+        return A.new_arr(arr.shape, lambda idx: (rd((idx[0], SIGMA[d][int(idx[1])])) if sv.is_conc(idx[1])
+                                                 else A._pick([rd((idx[0], SIGMA[d][k])) for k in range(d)], idx[1])), "float")
+
+    def axis(self, d, c):
+        return _sig(d, c)
+
+    def begin(self, ctx, unit, inp):
+        from pyvc.lib import _arr
+        interp = ctx.interp
+        orig = interp.summaries.get(PBC_KEY)
+        if orig is None:
+            return ("none", None)
+
+        def wrapped(interp_, args, kwargs):
+            names = ["RIJ", "hmatrix", "ppp"]
+            vals = dict(zip(names, args))
+            vals.update(kwargs)
+            R, Hh, P = _arr(vals["RIJ"], interp_), _arr(vals["hmatrix"], interp_), vals.get("ppp")
+            if R.ndim != 2 or P is None:
+                raise sv.EngineError("axis wrapper: remove_pbc(RIJ (n, d), hmatrix, ppp) expected")
+            P = _arr(P, interp_)
+            d = A.conc_dim(Hh.shape[0], "cell dimension")
+            inv = [SIGMA[d].index(x) for x in range(d)]
+            rd = R.reader()
+            # permuted back: old axis a is new axis inv[a]
+            R0 = A.new_arr(R.shape, lambda idx: rd((idx[0], inv[int(idx[1])])) if sv.is_conc(idx[1]) else A._pick([rd((idx[0], inv[a])) for a in range(d)], idx[1]), "float")
+            H0 = A.from_nested([[Hh.get((inv[a], inv[b])) for b in range(d)] for a in range(d)], "float")
+            P0 = A.from_nested([P.get((inv[a],)) for a in range(d)], "int")
+            D = _arr(orig(interp_, [R0, H0, P0], {}), interp_)
+            dr = D.reader()
+            return A.new_arr(D.shape, A._memo(lambda idx: dr((idx[0], SIGMA[d][int(idx[1])])) if sv.is_conc(idx[1])
+                                              else A._pick([dr((idx[0], SIGMA[d][k])) for k in range(d)], idx[1])), "float")
+        interp.summaries[PBC_KEY] = wrapped
+        return ("wrapped", orig)
+
+    def end(self, ctx, unit, inp, token):
+        remove_row_wrapper(ctx, token)
+
+
+AXES = AxisPermutation()
+
+
+def axis_lemmas():
+    """remove_pbc commutes with a permutation of the axes applied to the row, the cell (rows and columns) and the mask: on the C02
+    contract's formula, general cell, symbolic mask (ring normal form; the rint atoms are congruent because their arguments are)"""
+    import contracts.C02 as C02
+    out = []
+    for d in (2, 3):
+        sg = SIGMA[d]
+        Hm = [[sv.real(f"H_{a}{b}") for b in range(d)] for a in range(d)]
+        r = [sv.real(f"r_{c}") for c in range(d)]
+        p = [sv.integer(f"p_{c}") for c in range(d)]
+        det, G = C02._inv_spec(Hm, d)
+        Hp = [[Hm[sg[a]][sg[b]] for b in range(d)] for a in range(d)]
+        detp, Gp = C02._inv_spec(Hp, d)
+        a_ = C02.pbc_spec_row(r, Hm, G, p, d)
+        b_ = C02.pbc_spec_row([r[sg[c]] for c in range(d)], Hp, Gp, [p[sg[c]] for c in range(d)], d)
+        out.append((f"lemma:d={d}:remove_pbc-commutes-with-axis-permutations", sv.and_(sv.cmp("==", det, detp), *[sv.cmp("==", b_[c], a_[sg[c]]) for c in range(d)]),
+                    {"ring_only": True}))
+    return out
 
 
 # ---------------------------------------------------------------------------------------------------------------
@@ -428,6 +697,10 @@ class Rel(Unit):
     def pos2(self, inp):
         geo = self.geo(inp)
         return lambda s, i, c: self.g.pos(geo, s, i, c, self.per_frame)
+
+    def cell2(self, inp):
+        geo = self.geo(inp)
+        return lambda s, a, b: self.g.cell(geo, s, a, b)
 
     light_state = False      # run on g.x from a fork of the final state that keeps only the branch decisions of the path condition
 
@@ -535,8 +808,14 @@ class CondGr(Rel):
 
     def second(self, ctx, inp):
         import contracts.C13 as C13
-        snap2 = traj_view(self, inp).snapshot(0)
-        return call(ctx, function(C13.MOD_GR, "conditional_gr"), [snap2, inp["cond"]], inp["kwargs"])
+        tr, d = inp["tr"], inp["d"]
+        snap2 = snapshots_like(ctx, 1, tr.N, d, self.pos2(inp), tr.typ, self.cell2(inp), lambda n, c: tr.bl(n, self.g.axis(d, c))).content["snapshots"].content[0]
+        kw = dict(inp["kwargs"])
+        kw["ppp"] = self.g.mask(kw["ppp"])
+        cond = inp["cond"]
+        if inp["kind"] in ("vector", "cvector") and inp["m"] == d and cond.dtype == "float":
+            cond = self.g.vec(cond)          # a vector field is given in the same coordinates as the positions
+        return call(ctx, function(C13.MOD_GR, "conditional_gr"), [snap2, cond], kw)
 
     def compare(self, ctx, case, inp, out, res2):
         from pyvc.pandas_model import df_content
@@ -550,14 +829,269 @@ class CondGr(Rel):
         yield self.cl("rows"), sv.and_(list(c1["order"]) == list(c2["order"]), sv.cmp("==", c1["n"], c2["n"]))
         k = inp["k"]
         inr = in_range((0, k, c1["n"]))
+        # the number of bins of the second run, written as the term of the first run (equal by the clause above: the box lengths are
+        # only permuted) so that the remaining clauses compare like with like
+        n1, n2 = sv.norm(c1["n"]), sv.norm(c2["n"])
+        same_n = [(sv.znum(n2), sv.znum(n1))] if isinstance(n1, sv.SV) and isinstance(n2, sv.SV) and not sv.znum(n1).eq(sv.znum(n2)) else []
         for nm in names:
             if nm in c1["cols"] and nm in c2["cols"]:
-                yield eq_goal(self.cl(nm), inr, [(c1["cols"][nm].get((k,)), c2["cols"][nm].get((k,)))])
+                yield from related(self.cl(nm), inr, c1["cols"][nm].get((k,)), c2["cols"][nm].get((k,)), same_n)
             else:
                 yield self.cl(nm), False
 
     def replay(self, case, clause, model, seed):
         return replay_rel("conditional_gr", self.g.key, seed, case)
+
+
+# ---- C04 S(q): unit-modulus phase (translation), 2 pi periodicity (lattice shift of an orthogonal cell)
+
+
+def _apps_named(e, names):
+    out, seen, stack = [], set(), [e]
+    while stack:
+        t = stack.pop()
+        if t.get_id() in seen:
+            continue
+        seen.add(t.get_id())
+        if z3.is_app(t):
+            if t.decl().kind() == z3.Z3_OP_UNINTERPRETED and t.decl().name() in names:
+                out.append(t)
+            stack.extend(t.children())
+    return out
+
+
+def _split_guards(goal):
+    """the goal under every truth assignment of the conditions of its (skeleton) conditionals: a complete case split"""
+    guards = _ite_guards(goal)
+    if len(guards) > 4:
+        raise sv.EngineError("too many conditionals")
+    out = []
+    for bits in range(1 << len(guards)):
+        sub = [(gd, z3.BoolVal(bool(bits >> n & 1))) for n, gd in enumerate(guards)]
+        out.append(z3.simplify(z3.substitute(goal, *sub)) if sub else goal)
+    return z3.And(*out) if len(out) > 1 else out[0]
+
+
+def _split_cases(goal, rewrites):
+    """[(goal, rewrites)] under every truth assignment of the conditions of the (skeleton) conditionals of the goal and of the
+    right-hand sides of the rewrites: a complete case split (each case is discharged on its own)"""
+    gs = {}
+    for t in [goal] + [r for _, r in rewrites]:
+        for gd in _ite_guards(t):
+            gs[gd.get_id()] = gd
+    guards = list(gs.values())
+    if len(guards) > 5:
+        raise sv.EngineError("too many conditionals")
+    out = []
+    for bits in range(1 << len(guards)):
+        sub = [(gd, z3.BoolVal(bool(bits >> n & 1))) for n, gd in enumerate(guards)]
+        if not sub:
+            return [(goal, list(rewrites))]
+        out.append((z3.simplify(z3.substitute(goal, *sub)), [(l, z3.simplify(z3.substitute(r, *sub))) for l, r in rewrites]))
+    return out
+
+
+class Sq(Rel):
+    """the per-wave-vector structure factors (every total / partial column, vector m) that sq.<method> averages over equal |q|:
+    translation multiplies every density mode of a frame by the unit-modulus phase exp(-i q.t_s) — Re[rho_a conj rho_b] is unchanged;
+    a lattice shift of a particle of an orthogonal cell changes every phase q_m . r_i by 2 pi times an integer"""
+
+    def geo(self, inp):
+        tr, L, d = inp["tr"], inp["L"], inp["d"]
+        return Geo(d, tr.pos, lambda s, a, b: A._pick([A._pick([L[x] if x == y else sv.to_frac(0.0) for y in range(d)], b) for x in range(d)], a), [1] * d)
+
+    def clause_names(self, case):
+        import contracts.C04 as C04
+        names = []
+        for name, _ in C04.columns(self.base.K):
+            if self.g.key == "translation":
+                names += [f"{name}:particle-sums=phase-rotated-sums:induction-base", f"{name}:particle-sums=phase-rotated-sums:induction-step",
+                          f"{name}:frame-term-invariant-under-a-unit-phase"]
+            else:
+                names += [f"{name}:phases-differ-by-2pi-times-an-integer", f"{name}:particle-sums:summands-equal", f"{name}:particle-sums:accumulated-sums-equal",
+                          f"{name}:frame-term"]
+            names += [f"{name}:sum-over-frames", self.cl(f"{name}:per-vector-value")]
+        return names
+
+    def second(self, ctx, inp):
+        import contracts.C04 as C04
+        attrs = dict(inp["args"][0].content)
+        attrs["snapshots"] = traj_view(self, inp).snapshots()
+        o2 = obj(C04.MOD, "sq", attrs)
+        return call(ctx, method(C04.MOD, "sq", C04.METHODS[self.base.K], o2), [])
+
+    def compare(self, ctx, case, inp, out, res2):
+        import contracts.C04 as C04
+        from pyvc import sigma
+        from pyvc.sigma import Sum
+        res1 = out.value
+        m, M, T, N, s0 = inp["m"], inp["M"], inp["T"], inp["N"], inp["s0"]
+        inm = in_range((0, m, M))
+        ins = sv.and_(inm, in_range((0, s0, T)))
+        gbs = [cur().heap[r.sid].meta.get("groupby") if isinstance(r, Ref) and r.kind == "df" else None for r in (res1, res2)]
+        iv, nv = z3.Int("i_any"), z3.Int("n_ind")
+        geo = self.geo(inp)
+        for name, ab in C04.columns(self.base.K):
+            names = [c for c in self.clause_names(case) if c.startswith(name + ":") or c == self.cl(f"{name}:per-vector-value")]
+            try:
+                rv1, rv2 = [sv.zr(g["values"][name]((m,))) for g in gbs]
+                ok = all(z3.is_app(t) and t.decl().name() == "round6" for t in (rv1, rv2))
+                v1, v2 = rv1.arg(0), rv2.arg(0)
+                r1, r2 = C04.outer_sigmas(v1), C04.outer_sigmas(v2)
+                ok = ok and len(r1) == 1 and len(r2) == 1
+            except Exception:
+                ok = False
+            if not ok:
+                for c in names:
+                    yield c, False
+                continue
+            raw1, raw2 = r1[0], r2[0]
+            sd1, sd2 = sigma.sigma_def_of(raw1), sigma.sigma_def_of(raw2)
+            a1 = [raw1.arg(i) for i in range(2, raw1.num_args())]
+            a2 = [raw2.arg(i) for i in range(2, raw2.num_args())]
+            be1, be2 = sd1.body_at(s0.t, a1), sd2.body_at(s0.t, a2)
+            subs, bad = [], False
+            step_goals, base_goals = [], []
+            lat_goals, lat_rw, lat_pairs = [], [], []
+            B = None
+            for e2 in C04.outer_sigmas(be2):
+                sdi = sigma.sigma_def_of(e2)
+                ai = [e2.arg(i) for i in range(2, e2.num_args())]
+                lo, hi = e2.arg(0), e2.arg(1)
+                body2 = sdi.body_at(iv, ai)
+                fas = _apps_named(body2, ("cos", "sin"))
+                if len(fas) != 1 or not (z3.is_int_value(lo) and lo.as_long() == 0):
+                    bad = True
+                    break
+                fa = fas[0]
+                isc = fa.decl().name() == "cos"
+                arg2 = fa.arg(0)
+                sym = "TVEC" if self.g.key == "translation" else "SHIFTV"
+                tapps = _apps_named(arg2, (sym,))
+                A_ = z3.substitute(arg2, *[(t, z3.RealVal(0)) for t in tapps]) if tapps else arg2
+                COS, SIN = fa.decl() if isc else sv.cos(sv.SV(A_)).t.decl(), fa.decl() if not isc else sv.sin(sv.SV(A_)).t.decl()
+                tmpl_c, tmpl_s = z3.substitute(body2, (fa, COS(A_))), z3.substitute(body2, (fa, SIN(A_)))
+
+                def S(tmpl, upto):
+                    return Sum(0, upto, lambda t, tmpl=tmpl: sv.SV(z3.substitute(tmpl, (iv, sv.znum(t)))))
+                if self.g.key == "translation":
+                    papps = _apps_named(arg2, ("POS",))
+                    Bq = z3.substitute(arg2, *[(t, z3.RealVal(0)) for t in papps]) if papps else arg2
+                    if _contains_const(Bq, iv) or not tapps:
+                        bad = True
+                        break
+                    B = Bq if B is None else B
+                    cB, sB = COS(Bq), SIN(Bq)
+
+                    def target(upto):
+                        Ec, Es = sv.zr(sv.norm(S(tmpl_c, upto))), sv.zr(sv.norm(S(tmpl_s, upto)))
+                        return (cB * Ec - sB * Es) if isc else (sB * Ec + cB * Es)
+                    n1 = nv + 1
+                    e2n, e2n1 = sdi.fn(lo, nv, *ai), sdi.fn(lo, z3.simplify(n1), *ai)
+                    rw = [(e2n1, e2n + sdi.body_at(nv, ai)), (e2n, target(sv.SV(nv)))]
+                    for tmpl in (tmpl_c, tmpl_s):
+                        En, En1 = sv.zr(sv.norm(S(tmpl, sv.SV(nv)))), sv.zr(sv.norm(S(tmpl, sv.SV(z3.simplify(n1)))))
+                        if sigma.sigma_def_of(En1) is None or sigma.sigma_def_of(En) is None:
+                            bad = True
+                            break
+                        rw.append((En1, En + z3.substitute(tmpl, (iv, nv))))
+                    if bad:
+                        break
+                    fan = z3.substitute(fa, (iv, nv))
+                    An = z3.substitute(A_, (iv, nv))
+                    rw.append((fan, (COS(An) * cB - SIN(An) * sB) if isc else (SIN(An) * cB + COS(An) * sB)))
+                    # the angle-addition instance is used with the argument of the code's cos / sin ring-equal to A_n + B
+                    step_goals.append((z3.And(z3.substitute(arg2, (iv, nv)) == An + Bq, e2n1 == target(sv.SV(z3.simplify(n1)))), rw))
+                    base_goals.append(sdi.fn(lo, z3.IntVal(0), *ai) == 0)
+                    subs.append((e2, target(N)))
+                else:
+                    # lattice shift: arg2 = A + 2 pi Z, Z an integer-sorted term (SHIFTV unfolded on the orthogonal cell of the box lengths)
+                    Z = z3.IntVal(0)
+                    for t in tapps:
+                        s_, i_, c_ = t.children()
+                        Z = Z + sv.znum(inp["nq"](sv.SV(raw2.arg(raw2.num_args() - 1)) if False else m, sv.SV(c_))) * KSH(s_, i_, c_)
+                    two_pi = sv.zr(sv.mul(2, sv.PI))
+                    defs = [(t, self.g.definition(geo, t)) for t in tapps]
+                    sign = None
+                    for sg in (-1, 1):
+                        if ring_ok(arg2 == A_ + two_pi * z3.ToReal(sg * Z), defs):
+                            sign = sg
+                    if sign is None:
+                        lat_goals.append(arg2 == A_ + two_pi * z3.ToReal(Z))
+                        lat_rw += defs
+                    else:
+                        lat_goals.append(arg2 == A_ + two_pi * z3.ToReal(sign * Z))
+                        lat_rw += defs
+                    e1 = sv.zr(sv.norm(S(tmpl_c if isc else tmpl_s, N)))
+                    if sigma.sigma_def_of(e1) is None:
+                        bad = True
+                        break
+                    lat_pairs.append((e1, e2, (fa, (COS if isc else SIN)(A_))))
+                    subs.append((e2, e1))
+            if bad:
+                for c in names:
+                    yield c, False
+                continue
+            if self.g.key == "translation":
+                # (A) induction over the number of particles: sum_{i<n} f(A_i + B) = (cos B, sin B)-combination of the untranslated sums;
+                #     base n = 0: empty sums; step: unfold-last instances + hypothesis + angle-addition instance at i = n (rewrites)
+                yield f"{name}:particle-sums=phase-rotated-sums:induction-base", z3.And(*base_goals), {"solver_opts": {"rounds": 1, "unfold": False}}
+                for gl, rw in step_goals:
+                    for gq, rq in _split_cases(gl, rw):
+                        yield f"{name}:particle-sums=phase-rotated-sums:induction-step", gq, {"ring_only": True, "rewrites": rq}
+                be2s = z3.substitute(be2, *subs)
+                cB, sB = sv.cos(sv.SV(B)).t, sv.sin(sv.SV(B)).t
+                atoms = [cB, sB] + C04.outer_sigmas(be2s) + C04.outer_sigmas(be1)
+                seen, ua = set(), []
+                for a in atoms:
+                    if a.get_id() not in seen:
+                        seen.add(a.get_id())
+                        ua.append(a)
+                gB, _ = sv.generalize(z3.Implies(cB * cB + sB * sB == 1, be2s == be1), [sv.SV(a) for a in ua], "u")
+                yield f"{name}:frame-term-invariant-under-a-unit-phase", gB, {"timeout": 20}
+            else:
+                yield f"{name}:phases-differ-by-2pi-times-an-integer", z3.And(*lat_goals), {"ring_only": True, "rewrites": lat_rw}
+                x = z3.Int("x_any")
+                pw = []
+                sg = []
+                for e1, e2, (fa, fA) in lat_pairs:
+                    d1, d2 = sigma.sigma_def_of(e1), sigma.sigma_def_of(e2)
+                    b1 = d1.body_at(x, [e1.arg(i) for i in range(2, e1.num_args())])
+                    b2 = d2.body_at(x, [e2.arg(i) for i in range(2, e2.num_args())])
+                    sg.append((_split_guards(b1 == b2), (z3.substitute(fa, (iv, x)), z3.substitute(fA, (iv, x)))))
+                    pw.append(lambda w, d1=d1, d2=d2, e1=e1, e2=e2: d1.body_at(w, [e1.arg(i) for i in range(2, e1.num_args())]) == d2.body_at(w, [e2.arg(i) for i in range(2, e2.num_args())]))
+                # cos / sin of the shifted phase rewritten to cos / sin of the unshifted one: instances of the 2 pi Z periodicity (clause above)
+                yield f"{name}:particle-sums:summands-equal", z3.And(*[g_ for g_, _ in sg]), {"ring_only": True, "rewrites": [r_ for _, r_ in sg]}
+                yield (f"{name}:particle-sums:accumulated-sums-equal", z3.And(*[e1 == e2 for e1, e2, _ in lat_pairs]),
+                       {"solver_opts": {"pointwise": pw, "rounds": 1, "unfold": False}})
+                yield f"{name}:frame-term", z3.substitute(be2, *subs) == be1, {"ring_only": True}
+
+            # (C) sum over frames by Σ-extensionality with the frame-term fact at the Skolem frame
+            def pointwise(w, sd1=sd1, sd2=sd2, a1=a1, a2=a2):
+                return z3.Implies(z3.And(w >= 0, w < sv.znum(T)), sd1.body_at(w, a1) == sd2.body_at(w, a2))
+            yield f"{name}:sum-over-frames", z3.Implies(sv.zb(inm), raw1 == raw2), {"solver_opts": {"pointwise": [pointwise], "rounds": 1, "unfold": False}}
+            yield self.cl(f"{name}:per-vector-value"), z3.substitute(rv2, (raw2, raw1)) == rv1, {"ring_only": True}
+
+    def replay(self, case, clause, model, seed):
+        return replay_rel(f"sq.{self.base.qualname.split('.')[-1]}", self.g.key, seed, case)
+
+
+def _contains_const(e, c):
+    seen, stack = set(), [e]
+    while stack:
+        t = stack.pop()
+        if t.get_id() in seen:
+            continue
+        seen.add(t.get_id())
+        if t.eq(c):
+            return True
+        stack.extend(t.children())
+    return False
+
+
+def ring_ok(goal, rewrites=()):
+    from pyvc import ring
+    return ring.ring_proves(goal, rewrites)
 
 
 # ---- C17 setups (make_snapshots accessors)
@@ -569,8 +1103,8 @@ def c17_geo(inp):
 
 
 def c17_snapshots(unit, ctx, inp):
-    acc = inp["acc"]
-    return snapshots_like(ctx, inp["T"], inp["N"], inp["d"], unit.pos2(inp), acc["typ"], acc["H"], lambda n, c: acc["L"](c))
+    acc, d = inp["acc"], inp["d"]
+    return snapshots_like(ctx, inp["T"], inp["N"], d, unit.pos2(inp), acc["typ"], unit.cell2(inp), lambda n, c: acc["L"](unit.g.axis(d, c)))
 
 
 class Tetra(Rel):
@@ -580,7 +1114,9 @@ class Tetra(Rel):
 
     def second(self, ctx, inp):
         import contracts.C17 as C17
-        return call(ctx, function(C17.GEO, "q8_tetrahedral"), [c17_snapshots(self, ctx, inp)], inp["kwargs"])
+        kw = dict(inp["kwargs"])
+        kw["ppp"] = self.g.mask(kw["ppp"])
+        return call(ctx, function(C17.GEO, "q8_tetrahedral"), [c17_snapshots(self, ctx, inp)], kw)
 
     def compare(self, ctx, case, inp, out, res2):
         res1 = out.value
@@ -605,6 +1141,7 @@ class PairEntropy(Rel):
         import contracts.C17 as C17
         attrs = dict(inp["self"].content)
         attrs["snapshots"] = c17_snapshots(self, ctx, inp)
+        attrs["ppp"] = self.g.mask(attrs["ppp"])
         o2 = obj(C17.PAIR, "S2", attrs)
         kw = dict(inp["kwargs"])
         if kw.get("outputfile"):
@@ -716,9 +1253,13 @@ class DivCurl(Rel):
         snap = inp["args"][0]
         p2 = self.pos2(inp)
         attrs = dict(snap.content)
-        attrs["positions"] = A.new_arr((inp["N"], inp["d"]), lambda idx: p2(0, idx[0], idx[1]), "float", input="g_pos")
+        d = inp["d"]
+        c2 = self.cell2(inp)
+        attrs["positions"] = A.new_arr((inp["N"], d), lambda idx: p2(0, idx[0], idx[1]), "float", input="g_pos")
+        attrs["hmatrix"] = A.from_nested([[c2(0, a, b) for b in range(d)] for a in range(d)], "float")
         snap2 = obj(RU, "SingleSnapshot", attrs)
-        return call(ctx, function(C15.MOD, "divergence_curl"), [snap2] + list(inp["args"][1:]), inp["kwargs"])
+        _, U_, P_, fn = inp["args"]
+        return call(ctx, function(C15.MOD, "divergence_curl"), [snap2, self.g.vec(U_), self.g.mask(P_), fn], inp["kwargs"])
 
     def compare(self, ctx, case, inp, out, res2):
         d, N = inp["d"], inp["N"]
@@ -738,7 +1279,8 @@ class DivCurl(Rel):
         inr = in_range((0, p, N))
         yield eq_goal(self.cl("divergence"), inr, [(div1.get((p,)), div2.get((p,)))])
         if d == 3:
-            yield eq_goal(self.cl("curl"), inr, [(curl1.get((p, c)), curl2.get((p, c))) for c in range(3)])
+            # a proper (even) permutation of the axes permutes the components of the curl like those of a vector
+            yield eq_goal(self.cl("curl"), inr, [(curl1.get((p, self.g.axis(3, c))), curl2.get((p, c))) for c in range(3)])
 
     def replay(self, case, clause, model, seed):
         return replay_rel("divergence_curl", self.g.key, seed, case)
@@ -759,6 +1301,13 @@ class Hessian(Rel):
     def geo(self, inp):
         S = inp["S"]
         return Geo(S.d, lambda s, i, c: S.pos.get((i, c)), lambda s, a, b: A._pick([A._pick(r, b) for r in S.Hm], a), S.p)
+
+    def setup(self, ctx, case):
+        args, kwargs, inp = super().setup(ctx, case)
+        # which files are written does not matter here: the two flags (symbolic in the base unit, four paths) are fixed
+        kwargs = dict(kwargs, saveevecs=False, savehessian=False)
+        inp["kwargs"] = dict(kwargs)
+        return args, kwargs, inp
 
     def second(self, ctx, inp):
         import contracts.C11 as C11
@@ -813,6 +1362,7 @@ class Relaxation(Rel):
         W2.X = A.new_arr((W.T, W.N, W.d), lambda idx: p2(idx[0], idx[1], idx[2]), "float", input="gX")
         attrs = dict(inp["args"][0].content)
         attrs["snapshots"] = W2.snapshots(ctx)
+        attrs["ppp"] = self.g.mask(attrs["ppp"])
         o2 = obj(C06.MOD, "Dynamics", attrs)
         return call(ctx, method(C06.MOD, "Dynamics", "relaxation", o2), inp["args"][1:], inp["kwargs"])
 
